@@ -1,5 +1,5 @@
 (** C04 — open finding K-C04-pop3-user: POP3 USER takes its argument verbatim; witness User+tag@Example.COM *)
-From IV Require Import Base.Bytes Model.Addr Proofs.AddrFacts Proofs.AddrScan Proofs.AddrDomain Proofs.AddrNaming.
+From IV Require Import Base.Bytes Model.Addr Proofs.AddrFacts Proofs.AddrScan Proofs.AddrDomain Proofs.AddrNaming Proofs.AddrReadSide.
 Theorem pop3_user_canonical_refuted : exists mode a r, new_recipient no_ip mode a = Some r /\ read_name no_ip mode pop3_user_flow a <> Some (r_mailbox r).
-Proof. exact AddrNaming.pop3_user_canonical_refuted. Qed.
+Proof. exact AddrReadSide.pop3_user_canonical_refuted. Qed.
 Print Assumptions pop3_user_canonical_refuted.
